@@ -180,7 +180,10 @@ def run(ctx):
             # for RunPython/RunSQL do), which says nothing about where the app's MODELS go
             app_level = {'vapp': 'default'} if k % 3 == 1 else None
             rep['app_level_answer'] = app_level
-            evorig.set_routes(routes, catch_all, app_level)
+            # every fourth split: the router only places models (allow_migrate) and says nothing about reads/writes
+            rw_opinion = (k % 4 != 2)
+            rep['router_answers_reads_and_writes'] = rw_opinion
+            evorig.set_routes(routes, catch_all, app_level, rw_opinion=rw_opinion)
             try:
                 evorig.fresh_databases()
                 evorig.clear_evolutions()
@@ -288,7 +291,7 @@ def run(ctx):
                                                        'related': None}]})
                     routes2 = dict(routes)
                     routes2[('vapp', 'notice')] = emptied
-                    evorig.set_routes(routes2, catch_all, app_level)
+                    evorig.set_routes(routes2, catch_all, app_level, rw_opinion=rw_opinion)
                     evorig.install_models(spec2)
                     evorig.set_evolutions('vapp', [
                         {'label': 'e1', 'mutations': [sigs.real_mutation(m) for m in muts]},
